@@ -119,7 +119,7 @@ void usim_set_ncpus(int n);
 /* Tracked-arena helpers */
 int usim_mem_is_live(const void *p);
 /* Name an allocation for reports */
-void usim_mem_tag(const void *p, const char *fmt, ...) __attribute__((format(printf, 2, 3)));
+void usim_mem_tag(const void *p /* may be uninitialised memory */, const char *fmt, ...) __attribute__((format(printf, 2, 3)));
 /* number of arena mapping requests (mmap/mremap) seen so far */
 uint64_t usim_mmap_calls(void);
 
